@@ -80,7 +80,7 @@ class CSSRule(css_parser.util.Base2):
 
     def _setAtkeyword(self, keyword):
         """Check if new keyword fits the rule it is used for."""
-        atkeyword = self._normalize(keyword)
+        atkeyword = self._normalizeatkeyword(keyword)
         if not self.atkeyword or (self.atkeyword == atkeyword):
             self._atkeyword = atkeyword
             self._keyword = keyword
